@@ -9,6 +9,7 @@ package main
 import (
 	"bufio"
 	"bytes"
+	"compress/gzip"
 	"context"
 	"crypto/sha256"
 	"encoding/base64"
@@ -180,6 +181,40 @@ func vprobePlaceholders() (email string, ip string) {
 	ip = probe(`{"c":"COMMAND","attr":{"remote":"203.0.113.77:41234","command":{"find":"c","filter":{}}}}`, "attr", "remote")
 	SetRedactIPs(false)
 	return
+}
+
+// vprobeGzipSuffixes finds, among candidate file-name endings, those for which ProcessMongoLogFile decompresses the file: a gzip payload is
+// written under each name and the output compared with the output for the plain text.
+func vprobeGzipSuffixes() []string {
+	out := []string{}
+	dir, err := os.MkdirTemp("", "vprobe")
+	if err != nil {
+		return out
+	}
+	defer os.RemoveAll(dir)
+	plain := []byte(`{"c":"NETWORK","attr":{"x":1}}` + "\n")
+	var gzbuf bytes.Buffer
+	zw := gzip.NewWriter(&gzbuf)
+	_, _ = zw.Write(plain)
+	_ = zw.Close()
+	var want bytes.Buffer
+	if ProcessMongoLogFileFromReader(bytes.NewReader(plain), &want, nil) != nil {
+		return out
+	}
+	for _, suf := range []string{".gz", ".gzip", ".z", ".tgz", ".zip", ".bz2", ".zst", ".xz", ".log", ".json", ".gz.txt", ".gz.", "gz", ".GZ", ".Gz", ".GZIP"} {
+		name := dir + "/probe" + suf
+		if os.WriteFile(name, gzbuf.Bytes(), 0o600) != nil {
+			continue
+		}
+		var got bytes.Buffer
+		func() {
+			defer func() { _ = recover() }()
+			if ProcessMongoLogFile(&DefaultFileReader{}, name, &got, nil) == nil && bytes.Equal(got.Bytes(), want.Bytes()) && want.Len() > 0 {
+				out = append(out, suf)
+			}
+		}()
+	}
+	return out
 }
 
 func vprobeLineLimit() int {
@@ -532,6 +567,7 @@ func vserve(rq *vreq, out *bufio.Writer) {
 			"TopSearch": TopLevelSearchOperators,
 			"otypes":    map[string]int{"Pipeline": int(Pipeline), "Exempt": int(Exempt), "Redactable": int(Redactable), "FieldName": int(FieldName), "OperatorArray": int(OperatorArray), "OperatorMap": int(OperatorMap), "Namespace": int(Namespace)},
 			"max_token": vprobeLineLimit(),
+			"gz_suffixes": vprobeGzipSuffixes(),
 			"probed":    map[string]any{"email_placeholder": probedEmail, "ip_placeholder": probedIP},
 			"consts": map[string]any{
 				"RedactedISODate": RedactedISODate, "RedactedString": RedactedString, "RedactedNumber": RedactedNumber,
